@@ -120,6 +120,30 @@ Section Process.
     intros st0 h i e1 e2 Hh.
     exact (history_independence st0 [] h i e1 e2 (Forall_nil _) Hh).
   Qed.
+
+  (* special case: the SAME history and input, run under two environments
+     (working directory contents, environment variables, locale, clock - all
+     carried by the entropy assignment of the last run AND of every earlier run) *)
+  Definition retag (f : entropy EVal -> entropy EVal) (ev : @event Val EVal Input) : @event Val EVal Input :=
+    match ev with Run i e => Run i (f e) | Crash w => Crash w end.
+
+  Lemma retag_crash_ok (f : entropy EVal -> entropy EVal) (h : list (@event Val EVal Input)) :
+    Forall (crash_ok t) h -> Forall (crash_ok t) (map (retag f) h).
+  Proof.
+    induction h as [|ev h IH]; intros Hh; simpl; [constructor|].
+    inversion Hh as [|x l Hev Hrest]; subst.
+    constructor; [destruct ev; simpl; auto | exact (IH Hrest)].
+  Qed.
+
+  Corollary environment_independence :
+    forall (st0 : state Val) (h : list (@event Val EVal Input)) (i : Input)
+           (e1 e2 : entropy EVal) (move : entropy EVal -> entropy EVal),
+      Forall (crash_ok t) h ->
+      out run st0 (h ++ [Run i e1]) = out run st0 (map (retag move) h ++ [Run i e2]).
+  Proof.
+    intros st0 h i e1 e2 move Hh.
+    exact (history_independence st0 h (map (retag move) h) i e1 e2 Hh (retag_crash_ok move h Hh)).
+  Qed.
 End Process.
 
 (* ---- the demo systems ---------------------------------------------------- *)
@@ -197,6 +221,40 @@ Proof.
   vm_compute. discriminate.
 Qed.
 
+(* ... and for an environment site: the same request, the same (empty) history,
+   the same survivors - only the working directory differs (no same-named file
+   vs a decoy AMBER.DAT whose parameter is 41) *)
+Lemma cwd_reads : reads_only cwd_run cwd_table cwd_sites.
+Proof.
+  intros st1 st2 ea eb i Hst He. unfold cwd_run. simpl.
+  rewrite (He "Path('AMBER.DAT').is_file()" eq_refl).
+  rewrite (Hst "table" eq_refl). reflexivity.
+Qed.
+
+Lemma cwd_writes : writes_only cwd_run cwd_table.
+Proof. intros st e i id _. reflexivity. Qed.
+
+Definition cwd_empty : entropy nat := fun _ => 0.
+Definition cwd_decoy : entropy nat := fun _ => 42.
+
+Theorem environment_obligation_necessary :
+  exists (t : list surv) (et : list esite) (run : state nat -> entropy nat -> nat -> nat * state nat),
+    reads_only run t et /\ writes_only run t /\
+    survivor_obligation t = true /\ entropy_obligation et = false /\
+    Forall (fun e => e_kind e = E_fs_cwd) et /\
+    exists st0 (h : list (@event nat nat nat)) i ea eb,
+      Forall (crash_ok t) h /\
+      out run st0 (h ++ [Run i ea]) <> out run st0 (h ++ [Run i eb]).
+Proof.
+  exists cwd_table, cwd_sites, cwd_run.
+  split; [exact cwd_reads|]. split; [exact cwd_writes|].
+  split; [reflexivity|]. split; [reflexivity|].
+  split; [repeat constructor|].
+  exists (demo_state 10 0), [Run 1 cwd_empty], 3, cwd_empty, cwd_decoy.
+  split; [repeat constructor|].
+  vm_compute. discriminate.
+Qed.
+
 Definition demo_history : list (@event nat nat nat) :=
   [Run 1 e0; Crash (fun st => upd st "counter" 99); Run 2 e1].
 
@@ -225,4 +283,26 @@ Proof.
   split; [exact good_reads|]. split; [exact good_writes|].
   split; [exact demo_crash_ok|].
   repeat split; vm_compute; reflexivity.
+Qed.
+
+(* the same system with environment sites present but not flowing (a side file
+   written into the cwd, an ASCII data file decoded through the locale): the
+   hypotheses still hold and moving the process (entropy e0 -> cwd_decoy in
+   EVERY run of the history) does not change the output *)
+Lemma env_good_reads : reads_only good_run good_table env_good_sites.
+Proof.
+  intros st1 st2 ea eb i Hst _. unfold good_run. simpl.
+  rewrite (Hst "table" eq_refl). reflexivity.
+Qed.
+
+Lemma nonvacuous_environment :
+  entropy_obligation env_good_sites = true /\
+  reads_only good_run good_table env_good_sites /\
+  (exists e, In e env_good_sites /\ e_kind e = E_fs_cwd) /\
+  out good_run (demo_state 10 0) (demo_history ++ [Run 3 e0]) = Some 13 /\
+  out good_run (demo_state 10 0) (map (retag nat nat nat (fun _ => cwd_decoy)) demo_history ++ [Run 3 cwd_decoy]) = Some 13.
+Proof.
+  split; [reflexivity|]. split; [exact env_good_reads|].
+  split; [exists (mk_esite "open(stem + '-input.p', 'wb')" E_fs_cwd false false); split; [simpl; auto | reflexivity]|].
+  split; vm_compute; reflexivity.
 Qed.
